@@ -495,7 +495,7 @@ public:
   void preadx(size_t offset, void* data, size_t size) const;
 
   inline const void* pgetv(size_t offset, size_t size) const {
-    if (offset + size > this->length) {
+    if ((offset > this->length) || (size > this->length - offset)) {
       throw std::out_of_range("end of string");
     }
     return this->data + offset;
